@@ -397,6 +397,8 @@ class Prog:
             x = rng.choice(sorted(cands))
             k = self.h[x]
             o = {"op": op, "h": x}
+            if op == "join":
+                o["d"] = rng.choice([0, 0, 2, 3])
             if op in ("send", "call"):
                 o["scr"] = self.scripts() if callable(self.scripts) else rng.choice(self.scripts)
             if (op, k) in NEWKIND:
@@ -423,6 +425,8 @@ class Prog:
 
 def setup_main(rng, cfg, clients_kinds, keep_root, entry="builder"):
     """main spawns a1 and hands one handle of the requested kind to every client."""
+    if entry == "builder":
+        entry = "builder:" + str(rng.randrange(4))
     ops = [{"op": "spawn", "a": "a1", "nh": "h0", "cfg": cfg, "entry": entry}]
     root_kind = "owning" if cfg.get("owning") else "addr"
     handles = {}
